@@ -13,6 +13,12 @@ package claim
 
 //@ func (*claim.Reconciler).Reconcile
 //@ props C08 C06 C05
+// the reconciler itself never drops or rewrites the XR reference a claim has recorded (an XR
+// that cannot be read - not yet in the cache, say - must be re-applied under the recorded name,
+// not replaced by a second one); only the syncers set it, under their own contracts
+//@ optional site *.SetResourceReference($c, $r) as rewrite-reference
+//@   where $c == $cm
+//@   assert [C06:recorded-reference-is-never-rewritten-by-the-reconciler] false
 //@ ghost xrDeleteIssued bool = false
 //@ let $cm = result claim.New
 //@ let $xr = result composite.New
@@ -86,6 +92,11 @@ package claim
 //@ func (*claim.ServerSideCompositeSyncer).Sync
 //@ props C06 C07
 // the composition reference flows back from the XR only into a claim that has none of its own
+// the revision reference flows back from the XR only when the XR's update policy is Automatic
+// (then the XR controller owns the field); under Manual or no policy it is the claim's field
+//@ optional site (*claim.Unstructured).SetCompositionRevisionReference($c, $ref) as revision-ref-from-xr
+//@   where $c == cm
+//@   assert [C07:revision-ref-flows-back-only-under-the-automatic-policy] xr.GetCompositionUpdatePolicy() != nil && *xr.GetCompositionUpdatePolicy() == "Automatic" && $ref == xr.GetCompositionRevisionReference()
 //@ optional site (*claim.Unstructured).SetCompositionReference($c, $ref) as late-init-composition-ref
 //@   where $c == cm
 //@   assert [C07:claims-own-composition-ref-is-never-overwritten] cm.GetCompositionReference() == nil && $ref == xr.GetCompositionReference()
